@@ -180,3 +180,382 @@ Proof.
     apply Forall_forallb. eapply bind_flat_Forall; [|exact B].
     intros x o _ Ex. eapply dgen_accepted; exact Ex.
 Qed.
+
+(* ------------------------------------------------------------------ invariants along a pipeline *)
+Definition establishes (P : tape -> Prop) (s : stage) : Prop :=
+  forall t ts, run_stage s t = Ok ts -> Forall P ts.
+Definition preserves (P : tape -> Prop) (s : stage) : Prop :=
+  forall t ts, P t -> run_stage s t = Ok ts -> Forall P ts.
+
+Lemma run_pipeline_preserves : forall (P : tape -> Prop) p b out,
+  Forall (preserves P) p -> Forall P b -> run_pipeline p b = Ok out -> Forall P out.
+Proof.
+  induction p as [|s r IH]; intros b out Hp Hb E; cbn [run_pipeline] in E.
+  - inversion E; subst; exact Hb.
+  - destruct (bind_flat (run_stage s) b) as [b'|] eqn:B; [|discriminate].
+    inversion Hp; subst. eapply IH; [assumption| |exact E].
+    eapply bind_flat_Forall_in; [|exact Hb|exact B]. intros x o Px Ex. eapply H1; eauto.
+Qed.
+
+Lemma run_pipeline_app : forall p q b out,
+  run_pipeline (p ++ q) b = Ok out -> exists mid, run_pipeline p b = Ok mid /\ run_pipeline q mid = Ok out.
+Proof.
+  induction p as [|s r IH]; intros q b out E; cbn [app run_pipeline] in *.
+  - exists b; split; [reflexivity|exact E].
+  - destruct (bind_flat (run_stage s) b) as [b'|]; [|discriminate]. apply IH; exact E.
+Qed.
+
+(* the key pipeline lemma: the LAST stage that establishes an invariant, followed only by stages preserving it *)
+Lemma run_pipeline_establishes : forall (P : tape -> Prop) pre s post b out,
+  establishes P s -> Forall (preserves P) post ->
+  run_pipeline (pre ++ s :: post) b = Ok out -> Forall P out.
+Proof.
+  intros P pre s post b out Hs Hpost E.
+  destruct (run_pipeline_app _ _ _ _ E) as (mid & _ & E2). cbn [run_pipeline] in E2.
+  destruct (bind_flat (run_stage s) mid) as [b'|] eqn:B; [|discriminate].
+  eapply run_pipeline_preserves; [exact Hpost| |exact E2].
+  eapply bind_flat_Forall; [|exact B]. intros x o _ Ex. eapply Hs; exact Ex.
+Qed.
+
+(* the three device predicates as tape properties *)
+Definition ops_ok (acc : list Z) (skip : bool) (prep : list Z) (t : tape) : Prop :=
+  ops_okb (fun c => zmem c acc) skip (fun c => zmem c prep) (t_ops t) = true.
+Definition mps_ok (ana samp : list Z) (t : tape) : Prop := mps_okb ana samp t = true.
+Definition obs_ok (ok : list Z) (t : tape) : Prop := obs_okb ok t = true.
+Definition wires_ok (dw : option (list Z)) (t : tape) : Prop := wires_okb dw t = true.
+
+Lemma decompose_establishes : forall acc dtab skip prep,
+  establishes (ops_ok acc skip prep) (SDecompose acc dtab skip prep).
+Proof.
+  intros acc dtab skip prep t ts E. cbn [run_stage] in E.
+  destruct (decompose_output_lemma _ _ _ _ _ _ _ E) as (t' & -> & _ & _ & H). constructor; [exact H|constructor].
+Qed.
+
+Lemma vmeas_establishes : forall ana samp, establishes (mps_ok ana samp) (SMeas ana samp).
+Proof.
+  intros ana samp t ts E. cbn [run_stage] in E. unfold validate_measurements in E.
+  destruct (forallb _ _) eqn:F; [|discriminate]. inversion E; subst. constructor; [exact F|constructor].
+Qed.
+
+Lemma vobs_establishes : forall ok, establishes (obs_ok ok) (SObs ok).
+Proof.
+  intros ok t ts E. cbn [run_stage] in E. unfold validate_observables in E.
+  destruct (forallb _ _) eqn:F; [|discriminate]. inversion E; subst. constructor; [exact F|constructor].
+Qed.
+
+Lemma forallb_app_l : forall A (p : A -> bool) a b, forallb p (a ++ b) = true -> forallb p a = true.
+Proof. intros A p a b H. rewrite forallb_app in H. apply andb_prop in H; apply H. Qed.
+
+Lemma completed_wires_in : forall w mps,
+  forallb (fun x => zmem x w) w = true ->
+  forallb (fun x => zmem x w) (flat_map m_wires mps) = true ->
+  forallb (fun x => zmem x w) (flat_map m_wires (map (complete_mp w) mps)) = true.
+Proof.
+  intros w mps Hw. induction mps as [|m r IH]; cbn [map flat_map]; intros H; [reflexivity|].
+  rewrite forallb_app in *. apply andb_prop in H; destruct H as [H1 H2]. rewrite (IH H2), andb_true_r.
+  destruct (complete_mp_spec w m) as [(_ & _ & ->)|(_ & ->)]; [exact Hw|exact H1].
+Qed.
+
+Lemma zmem_self : forall w, forallb (fun x => zmem x w) w = true.
+Proof.
+  intros w. apply Forall_forallb. rewrite Forall_forall. intros x Hx. unfold zmem.
+  apply existsb_exists. exists x; split; [exact Hx|apply Z.eqb_refl].
+Qed.
+
+Lemma vwires_establishes : forall dw, establishes (wires_ok dw) (SWires dw).
+Proof.
+  intros dw t ts E. cbn [run_stage] in E. unfold validate_device_wires in E. unfold wires_ok, wires_okb.
+  destruct dw as [[|x r]|]; try (inversion E; subst; constructor; [reflexivity|constructor]).
+  destruct (forallb _ (tape_wires t)) eqn:F; [|discriminate]. inversion E; subst. constructor; [|constructor].
+  unfold tape_wires in *; cbn [t_ops t_mps]. rewrite forallb_app in *. apply andb_prop in F; destruct F as [F1 F2].
+  rewrite F1. cbn [andb]. apply completed_wires_in; [apply zmem_self|exact F2].
+Qed.
+
+(* validators preserve the operation and measurement predicates (they return the same operations / codes) *)
+Lemma forallb_map_eq : forall A B (f : A -> B) (p : B -> bool) l l',
+  map f l = map f l' -> forallb (fun x => p (f x)) l = forallb (fun x => p (f x)) l'.
+Proof.
+  intros A B f p. induction l as [|x r IH]; destruct l' as [|y s]; cbn; intros H; try discriminate; [reflexivity|].
+  inversion H. rewrite H1. f_equal. apply IH; assumption.
+Qed.
+
+Lemma validator_preserves_ops : forall acc skip prep s,
+  is_validator s = true -> preserves (ops_ok acc skip prep) s.
+Proof.
+  intros acc skip prep s V t ts Pt E. rewrite (validator_returns s t ts V E). constructor; [|constructor].
+  unfold ops_ok in *. rewrite validated_ops. exact Pt.
+Qed.
+
+Lemma validator_preserves_mps : forall ana samp s,
+  is_validator s = true -> preserves (mps_ok ana samp) s.
+Proof.
+  intros ana samp s V t ts Pt E. rewrite (validator_returns s t ts V E). constructor; [|constructor].
+  unfold mps_ok, mps_okb in *. rewrite validated_shots.
+  rewrite (forallb_map_eq _ _ m_code (fun c => zmem c (if t_shots t then samp else ana)) _ (t_mps t)); [exact Pt|].
+  apply validated_codes.
+Qed.
+
+Lemma validator_preserves_obs : forall ok s,
+  is_validator s = true -> preserves (obs_ok ok) s.
+Proof.
+  intros ok s V t ts Pt E. rewrite (validator_returns s t ts V E). constructor; [|constructor].
+  unfold obs_ok, obs_okb in *.
+  rewrite (forallb_map_eq _ _ m_obs (fun o => match o with Some c => zmem c ok | None => true end) _ (t_mps t));
+    [exact Pt|apply validated_obs].
+Qed.
+
+(* validators other than a validate_device_wires with different wires preserve the wire predicate *)
+Lemma validator_preserves_wires : forall dw s,
+  is_validator s = true -> (forall dw', s = SWires dw' -> dw' = dw) -> preserves (wires_ok dw) s.
+Proof.
+  intros dw s V Hd t ts Pt E. destruct s; try discriminate;
+    try (rewrite (validator_returns _ t ts V E); cbn [validated]; constructor; [exact Pt|constructor]).
+  rewrite (Hd dw0 eq_refl) in E. eapply vwires_establishes; exact E.
+Qed.
+
+(* decompose leaves measurements and shots alone *)
+Lemma decompose_preserves_mps : forall ana samp acc dtab skip prep,
+  preserves (mps_ok ana samp) (SDecompose acc dtab skip prep).
+Proof.
+  intros ana samp acc dtab skip prep t ts Pt E. cbn [run_stage] in E.
+  destruct (decompose_output_lemma _ _ _ _ _ _ _ E) as (t' & -> & Hm & Hs & _). constructor; [|constructor].
+  unfold mps_ok, mps_okb in *. rewrite Hm, Hs. exact Pt.
+Qed.
+Lemma decompose_preserves_obs : forall ok acc dtab skip prep,
+  preserves (obs_ok ok) (SDecompose acc dtab skip prep).
+Proof.
+  intros ok acc dtab skip prep t ts Pt E. cbn [run_stage] in E.
+  destruct (decompose_output_lemma _ _ _ _ _ _ _ E) as (t' & -> & Hm & _ & _). constructor; [|constructor].
+  unfold obs_ok, obs_okb in *. rewrite Hm. exact Pt.
+Qed.
+
+(* decompose keeps the wires inside the device wires when the decomposer's table only mentions device wires *)
+Definition dtab_wires_in (w : list Z) (dtab : list (Z * list aop)) : Prop :=
+  Forall (fun e => Forall (fun o => forallb (fun x => zmem x w) (o_wires o) = true) (snd e)) dtab.
+
+Lemma lookup_in : forall tab c d, lookup tab c = Some d -> In (c, d) tab.
+Proof.
+  induction tab as [|[c' v] r IH]; cbn; intros c d H; [discriminate|].
+  destruct (c =? c') eqn:E; [inversion H; subst; left; f_equal; symmetry; apply Z.eqb_eq; exact E|right; apply IH; exact H].
+Qed.
+
+Lemma dgen_wires : forall w dtab, dtab_wires_in w dtab -> forall fuel acc o out,
+  forallb (fun x => zmem x w) (o_wires o) = true ->
+  dgen fuel acc (lookup dtab) o = Ok out ->
+  Forall (fun o' => forallb (fun x => zmem x w) (o_wires o') = true) out.
+Proof.
+  intros w dtab Hd. induction fuel as [|f IH]; intros acc o out Ho E; cbn [dgen] in E; [discriminate|].
+  destruct (acc (o_code o)).
+  - inversion E; subst. constructor; [exact Ho|constructor].
+  - destruct (lookup dtab (o_code o)) as [d|] eqn:L; [|discriminate].
+    apply lookup_in in L. unfold dtab_wires_in in Hd. rewrite Forall_forall in Hd. specialize (Hd _ L). cbn in Hd.
+    eapply bind_flat_Forall_in; [|exact Hd|exact E]. intros x o' Hx Ex. cbn beta in Hx. exact (IH acc x o' Hx Ex).
+Qed.
+
+Lemma forallb_flat_map : forall A B (f : A -> list B) (p : B -> bool) l,
+  forallb p (flat_map f l) = forallb (fun x => forallb p (f x)) l.
+Proof. intros A B f p; induction l as [|x r IH]; cbn; [reflexivity|rewrite forallb_app, IH; reflexivity]. Qed.
+
+Lemma decompose_preserves_wires : forall w acc dtab skip prep,
+  dtab_wires_in w dtab -> preserves (wires_ok (Some w)) (SDecompose acc dtab skip prep).
+Proof.
+  intros w acc dtab skip prep Hd t ts Pt E. cbn [run_stage] in E. unfold decompose_stage in E.
+  destruct (split_prep skip (fun c => zmem c prep) (t_ops t)) as [p rest] eqn:S.
+  destruct (forallb _ rest); [inversion E; subst; constructor; [exact Pt|constructor]|].
+  destruct (bind_flat _ rest) as [new|] eqn:B; [|discriminate]. inversion E; subst. constructor; [|constructor].
+  unfold wires_ok, wires_okb in *. destruct w as [|x0 r0]; [reflexivity|].
+  unfold tape_wires in *; cbn [t_ops t_mps]. rewrite forallb_app in *. apply andb_prop in Pt; destruct Pt as [P1 P2].
+  rewrite P2, andb_true_r. destruct (split_prep_shape _ _ _ _ _ S) as [Hops _]. rewrite Hops in P1.
+  rewrite forallb_flat_map in *. rewrite forallb_app in *. apply andb_prop in P1; destruct P1 as [Pp Pr].
+  rewrite Pp. cbn [andb]. apply Forall_forallb.
+  eapply bind_flat_Forall_in; [|apply forallb_Forall; exact Pr|exact B].
+  intros o out Ho Eo. cbn beta in Ho. exact (dgen_wires _ dtab Hd _ _ o out Ho Eo).
+Qed.
+
+(* preprocess_output_supported *)
+Record devpred := mkDev { d_acc : list Z; d_skip : bool; d_prep : list Z; d_ana : list Z; d_samp : list Z;
+                          d_wires : option (list Z) }.
+Definition supported (D : devpred) (t : tape) : Prop :=
+  ops_ok (d_acc D) (d_skip D) (d_prep D) t /\ mps_ok (d_ana D) (d_samp D) t /\ wires_ok (d_wires D) t.
+
+Definition well_formed (D : devpred) (p : list stage) : Prop :=
+  (exists pre dtab post, p = pre ++ SDecompose (d_acc D) dtab (d_skip D) (d_prep D) :: post /\
+                         Forall (preserves (ops_ok (d_acc D) (d_skip D) (d_prep D))) post) /\
+  (exists pre post, p = pre ++ SMeas (d_ana D) (d_samp D) :: post /\
+                    Forall (preserves (mps_ok (d_ana D) (d_samp D))) post) /\
+  (exists pre post, p = pre ++ SWires (d_wires D) :: post /\ Forall (preserves (wires_ok (d_wires D))) post).
+
+Lemma preprocess_output_supported_lemma : forall D p b out,
+  well_formed D p -> run_pipeline p b = Ok out -> Forall (supported D) out.
+Proof.
+  intros D p b out ((pre1 & dtab & post1 & E1 & H1) & (pre2 & post2 & E2 & H2) & (pre3 & post3 & E3 & H3)) R.
+  assert (A1 : Forall (ops_ok (d_acc D) (d_skip D) (d_prep D)) out).
+  { rewrite E1 in R. eapply run_pipeline_establishes; [apply decompose_establishes|exact H1|exact R]. }
+  assert (A2 : Forall (mps_ok (d_ana D) (d_samp D)) out).
+  { rewrite E2 in R. eapply run_pipeline_establishes; [apply vmeas_establishes|exact H2|exact R]. }
+  assert (A3 : Forall (wires_ok (d_wires D)) out).
+  { rewrite E3 in R. eapply run_pipeline_establishes; [apply vwires_establishes|exact H3|exact R]. }
+  rewrite Forall_forall in *. intros t Ht. repeat split; auto.
+Qed.
+
+(* ------------------------------------------------------------------ the built-in programs contain the stages *)
+Definition has (n : sname) (l : list sname) : bool := existsb (sname_eqb n) l.
+Lemma builtin_programs_lemma : forall c,
+  has NValidateDeviceWires (pipeline_names c) = true /\
+  has NValidateMeasurements (pipeline_names c) = true /\
+  (has NDecompose (pipeline_names c) = true \/ (c_dev c = DClifford /\ c_check c = false)).
+Proof.
+  intros [d g m w r k j]. destruct d, g, m, w, r, k, j; cbn; repeat split; auto.
+Qed.
+
+(* ------------------------------------------------------------------ semantics *)
+Section DecomposeSem.
+  Variables (U : Type) (one : U) (mul : U -> U -> U) (opsem : aop -> U).
+  Hypothesis mul_assoc : forall a b c, mul a (mul b c) = mul (mul a b) c.
+  Hypothesis mul_one_l : forall a, mul one a = a.
+  Hypothesis mul_one_r : forall a, mul a one = a.
+
+  (* circuit semantics: the product of the operator semantics, in order *)
+  Fixpoint circ_sem (l : list aop) : U :=
+    match l with [] => one | o :: r => mul (opsem o) (circ_sem r) end.
+
+  Lemma circ_sem_app : forall a b, circ_sem (a ++ b) = mul (circ_sem a) (circ_sem b).
+  Proof.
+    induction a as [|o r IH]; intros b; cbn [app circ_sem]; [rewrite mul_one_l; reflexivity|].
+    rewrite IH, mul_assoc; reflexivity.
+  Qed.
+
+  (* the decomposer is semantics preserving on every operator it is asked about *)
+  Definition dec_sound (dec : Z -> option (list aop)) : Prop :=
+    forall o d, dec (o_code o) = Some d -> circ_sem d = opsem o.
+
+  Lemma bind_flat_sem : forall (f : aop -> result (list aop)) l out,
+    (forall o d, f o = Ok d -> circ_sem d = opsem o) ->
+    bind_flat f l = Ok out -> circ_sem out = circ_sem l.
+  Proof.
+    induction l as [|o r IH]; intros out H E; cbn [bind_flat] in E.
+    - inversion E; reflexivity.
+    - destruct (f o) as [a|] eqn:Ea; [|discriminate]. destruct (bind_flat f r) as [b|] eqn:Eb; [|discriminate].
+      inversion E; subst. rewrite circ_sem_app. cbn [circ_sem]. rewrite (H _ _ Ea), (IH b H eq_refl). reflexivity.
+  Qed.
+
+  Lemma dgen_sem : forall dec, dec_sound dec -> forall fuel acc o out,
+    dgen fuel acc dec o = Ok out -> circ_sem out = opsem o.
+  Proof.
+    intros dec Hd. induction fuel as [|f IH]; intros acc o out E; cbn [dgen] in E; [discriminate|].
+    destruct (acc (o_code o)).
+    - inversion E; subst. cbn [circ_sem]. apply mul_one_r.
+    - destruct (dec (o_code o)) as [d|] eqn:L; [|discriminate].
+      rewrite <- (Hd o d L). eapply bind_flat_sem; [|exact E]. intros o' d' E'. eapply IH; exact E'.
+  Qed.
+
+  Lemma decompose_sem_lemma : forall dec, dec_sound dec -> forall fuel acc skip isprep t ts,
+    decompose_stage fuel acc dec skip isprep t = Ok ts ->
+    exists t', ts = [t'] /\ circ_sem (t_ops t') = circ_sem (t_ops t) /\ t_mps t' = t_mps t /\ t_shots t' = t_shots t.
+  Proof.
+    intros dec Hd fuel acc skip isprep t ts E. unfold decompose_stage in E.
+    destruct (split_prep skip isprep (t_ops t)) as [p rest] eqn:S.
+    destruct (forallb _ rest); [inversion E; subst; exists t; auto|].
+    destruct (bind_flat _ rest) as [new|] eqn:B; [|discriminate]. inversion E; subst.
+    eexists; repeat split; cbn [t_ops]. destruct (split_prep_shape _ _ _ _ _ S) as [-> _].
+    rewrite !circ_sem_app. f_equal. eapply bind_flat_sem; [|exact B]. intros o d Eo. eapply dgen_sem; eauto.
+  Qed.
+End DecomposeSem.
+
+Section PipelineSem.
+  (* abstract results R of a tape; a stage with post-processing returns tapes and a function of their results *)
+  Variables (R : Type) (sem : tape -> R).
+  Definition pstage := tape -> result (list tape * (list R -> R)).
+  Definition sem_preserving (s : pstage) : Prop :=
+    forall t ts f, s t = Ok (ts, f) -> f (map sem ts) = sem t.
+
+  (* one stage over a batch: the tapes are concatenated, the slices are remembered (CompilePipeline.__call_tapes) *)
+  Fixpoint run_batch_pp (s : pstage) (b : list tape) : result (list tape * list (nat * (list R -> R))) :=
+    match b with
+    | [] => Ok ([], [])
+    | t :: r => match s t with
+                | Err => Err
+                | Ok (ts, f) => match run_batch_pp s r with
+                                | Err => Err
+                                | Ok (ts', fs) => Ok (ts ++ ts', (length ts, f) :: fs)
+                                end
+                end
+    end.
+  (* _batch_postprocessing: each function gets its slice *)
+  Fixpoint batch_post (fs : list (nat * (list R -> R))) (rs : list R) : list R :=
+    match fs with
+    | [] => []
+    | (n, f) :: r => f (firstn n rs) :: batch_post r (skipn n rs)
+    end.
+  (* the whole program; _apply_postprocessing_stack applies the stack in reverse order *)
+  Fixpoint run_pp (p : list pstage) (b : list tape) : result (list tape * (list R -> list R)) :=
+    match p with
+    | [] => Ok (b, fun rs => rs)
+    | s :: r => match run_batch_pp s b with
+                | Err => Err
+                | Ok (b', fs) => match run_pp r b' with
+                                 | Err => Err
+                                 | Ok (out, post) => Ok (out, fun rs => batch_post fs (post rs))
+                                 end
+                end
+    end.
+
+  Lemma run_batch_pp_sem : forall s, sem_preserving s -> forall b out fs,
+    run_batch_pp s b = Ok (out, fs) -> batch_post fs (map sem out) = map sem b.
+  Proof.
+    intros s Hs. induction b as [|t r IH]; intros out fs E; cbn [run_batch_pp] in E.
+    - inversion E; reflexivity.
+    - destruct (s t) as [[ts f]|] eqn:Et; [|discriminate].
+      destruct (run_batch_pp s r) as [[ts' fs']|] eqn:Er; [|discriminate]. inversion E; subst.
+      cbn [batch_post map]. rewrite map_app.
+      rewrite <- (map_length sem ts) at 1. rewrite firstn_app, Nat.sub_diag, firstn_all. cbn [firstn]. rewrite app_nil_r.
+      rewrite (Hs _ _ _ Et). f_equal.
+      rewrite <- (map_length sem ts). rewrite skipn_app, Nat.sub_diag, skipn_all. cbn [skipn app].
+      apply IH; reflexivity.
+  Qed.
+
+  Lemma pipeline_sem_lemma : forall p, Forall sem_preserving p -> forall b out post,
+    run_pp p b = Ok (out, post) -> post (map sem out) = map sem b.
+  Proof.
+    induction p as [|s r IH]; intros Hp b out post E; cbn [run_pp] in E.
+    - inversion E; reflexivity.
+    - destruct (run_batch_pp s b) as [[b' fs]|] eqn:Eb; [|discriminate].
+      destruct (run_pp r b') as [[out' post']|] eqn:Er; [|discriminate]. inversion E; subst.
+      inversion Hp; subst. rewrite (IH H2 _ _ _ Er). eapply run_batch_pp_sem; eauto.
+  Qed.
+
+  (* null_postprocessing stages: validators and decompose as sem-preserving stages *)
+  Definition null_pp (s : stage) : pstage :=
+    fun t => match run_stage s t with
+             | Ok ts => Ok (ts, fun rs => match rs with r :: _ => r | [] => sem t end)
+             | Err => Err
+             end.
+
+  Lemma validator_sem_preserving : forall s,
+    is_validator s = true -> (forall t, sem (validated s t) = sem t) -> sem_preserving (null_pp s).
+  Proof.
+    intros s V Hw t ts f E. unfold null_pp in E. destruct (run_stage s t) as [ts'|] eqn:Es; [|discriminate].
+    inversion E; subst. rewrite (validator_returns s t ts V Es). cbn. apply Hw.
+  Qed.
+End PipelineSem.
+
+Section DecomposeStageSem.
+  Variables (U : Type) (one : U) (mul : U -> U -> U) (opsem : aop -> U).
+  Hypothesis mul_assoc : forall a b c, mul a (mul b c) = mul (mul a b) c.
+  Hypothesis mul_one_l : forall a, mul one a = a.
+  Hypothesis mul_one_r : forall a, mul a one = a.
+  Variables (R : Type) (measure : U -> list amp -> bool -> R).
+  (* results depend on the operations only through their product *)
+  Definition tsem (t : tape) : R := measure (circ_sem U one mul opsem (t_ops t)) (t_mps t) (t_shots t).
+
+  Lemma decompose_sem_preserving : forall acc dtab skip prep,
+    dec_sound U one mul opsem (lookup dtab) -> sem_preserving R tsem (null_pp R tsem (SDecompose acc dtab skip prep)).
+  Proof.
+    intros acc dtab skip prep Hd t ts f E. unfold null_pp in E.
+    destruct (run_stage (SDecompose acc dtab skip prep) t) as [ts'|] eqn:Es; [|discriminate]. inversion E; subst.
+    cbn [run_stage] in Es.
+    destruct (decompose_sem_lemma U one mul opsem mul_assoc mul_one_l mul_one_r _ Hd _ _ _ _ _ _ Es)
+      as (t' & -> & Hc & Hm & Hs).
+    cbn. unfold tsem. rewrite Hc, Hm, Hs. reflexivity.
+  Qed.
+End DecomposeStageSem.
